@@ -11,6 +11,12 @@ import (
 
 func verifYield(site string) {}
 
+func verifMapIter(entries int) {}
+
+func verifMapIterPtr(m unsafe.Pointer) {}
+
+func verifMapIterEnd() {}
+
 func verifAwaitUnlocked(m *sync.Mutex) {}
 
 func verifPoolGet(pool *sync.Pool, fresh func() unsafe.Pointer, got unsafe.Pointer) unsafe.Pointer {
